@@ -36,10 +36,7 @@ FEAT = gen.feat(
 )
 
 
-def sigkey(spec, mid, prio=None):
-    m = spec["methods"][mid]
-    p = m.get("prio", 0) if prio is None else prio
-    return json.dumps([[(q[0], q[1], q[2], q[3]) for q in m["params"]], p])
+from ..common import sigkey  # noqa: E402,F401
 
 
 # --------------------------------------------------------------------------
